@@ -655,3 +655,22 @@ func (ft *FT) constArray(idxSort, elemSort string, z *T) *T {
 	}
 	return ft.fresh("constarr", "(Array "+idxSort+" "+elemSort+")")
 }
+
+// noteLocalName records the Go type of a local the contract of the function under
+// verification names (for contracts/names.json).
+func (ft *FT) noteLocalName(name string, t types.Type) {
+	if t == nil || ft.fn == nil || ft.e.recNames == nil {
+		return
+	}
+	for _, p := range ft.fn.Params {
+		if p.Name() == name {
+			return
+		}
+	}
+	m := ft.e.recNames[ft.fn.String()]
+	if m == nil {
+		m = map[string]string{}
+		ft.e.recNames[ft.fn.String()] = m
+	}
+	m[name] = types.TypeString(t, nil)
+}
